@@ -373,7 +373,13 @@ pub fn run_c12(seed: u64, runno: u64) -> Acc {
     let mut rng = Rng::new(crate::rng::mix(seed, "C12", runno));
     let mut acc = Acc::new();
     let z = ZobristHasher::create_zobrist_hasher();
-    let game = if runno % 61 == 7 {
+    let game = if runno % 29 == 11 {
+        // more than 128 legal moves, every mate in one produced late by the generator
+        // (endgames.rs): depth 1 is within the reference's reach, deeper ones are skipped
+        acc.count("c12_heavy_material_roots");
+        let all = crate::endgames::HEAVY_MATES;
+        Game { start: Pos::from_fen(all[(runno / 29) as usize % all.len()]).unwrap(), moves: vec![], source: "heavy-mates" }
+    } else if runno % 61 == 7 {
         // forcing check chains next to a quiet mate: check extensions make values of different
         // mate lengths meet inside one shallow iteration
         let p = Pos::from_fen(CROSS_CHECK_MATES[(runno / 61) as usize % CROSS_CHECK_MATES.len()]).unwrap();
@@ -559,7 +565,12 @@ pub fn run_c11(seed: u64, runno: u64, solver_bound: u32) -> Acc {
     let mut acc = Acc::new();
     let z = ZobristHasher::create_zobrist_hasher();
     // sources: generated small positions, the endgame seeds and terminal-adjacent walks
-    let root = match rng.below(27) {
+    let root = match if rng.chance(1, 150) { 99 } else { rng.below(27) } {
+        99 => {
+            // more than 128 legal moves and the mates in one come late in the move list
+            acc.count("c11_heavy_material_positions");
+            Pos::from_fen(*rng.pick(crate::endgames::HEAVY_MATES)).unwrap()
+        }
         24 | 25 | 26 => {
             acc.count("c11_minimal_material_positions");
             minimal_mate_root(&mut rng)
